@@ -29,7 +29,7 @@ RTOL = 1e-9
 META = {
     'rule': ('cases = (a) point sets (12 curve families, random clouds, integer grids; C/F/strided-view/int64 '
              'layouts) x segment (a,b) in {curve chord, arbitrary off-curve, a == b, interior sub-chord with points '
-             'beyond both ends, axis-parallel, integer}; x sub-ranges (l,r) with l >= 0; (b) rectangles: integer '
+             'beyond both ends, axis-parallel, integer, chord 1e-6..1e-11 of the extent}; x sub-ranges (l,r), l >= 0; (b) rectangles: integer '
              'corners 0..5 (random, identical, nested, touching, degenerate) and float rectangles; (c) triples: '
              'distinct integer triples in [-8,8]^2 (collinear ones included), consecutive curve points, nearly '
              'collinear float triples; (d) value vectors with ties for rank; (e) simplifier runs (rdp, rdp_fixed, '
@@ -255,6 +255,22 @@ def post_perp_points(ctx, original, args, kwargs, result):
                 'result_head': res[:4], 'reference_head': np.asarray(ref[:4], dtype=float)}, cap=2)
 
 
+def _line_tolerant(ctx, result, p, a, b, what):
+    """Fallback when a sub-range result is not bit-identical to the saved primitive (e.g. a re-implementation):
+    accept it if it equals the distances to the line through a and b under the reference-model rule."""
+    if np.all(ld(a) == ld(b)):
+        return False
+    res = np.asarray(result)
+    if res.shape != (len(p),) or res.dtype.kind != 'f':
+        return False
+    ref, chord = model_line(p, a, b)
+    tol = 64 * EPS * (_cmax(p, a, b) + float(chord)) + RTOL * ref
+    ok = bool(np.all(np.abs(ld(res) - ref) <= tol))
+    if ok:
+        ctx.h('tolerant_fallback', what)
+    return ok
+
+
 def post_perp_index(ctx, original, args, kwargs, result):
     mon = 'perp_index'
     b_ = bind(('points', 'left', 'right'), args, kwargs)
@@ -269,7 +285,7 @@ def post_perp_index(ctx, original, args, kwargs, result):
     # same-primitive rule: the saved original on exactly that sub-range
     exp = install.orig('linear_fit', 'perpendicular_distance_points')(P[l:r + 1], P[l], P[r])
     ctx.h('perp_index_left', 'left=0' if l == 0 else 'left>0')
-    if not exact_equal(result, exp):
+    if not exact_equal(result, exp) and not _line_tolerant(ctx, result, P[l:r + 1], P[l], P[r], 'perp_index'):
         res = np.asarray(result, dtype=float)
         e = np.asarray(exp, dtype=float)
         return ctx.violation(mon, 'dist:perp_index',
@@ -290,7 +306,7 @@ def post_perp_full(ctx, original, args, kwargs, result):
     if not _is_points(P) or not _finite(P):
         return ctx.ood(mon, 'shape')
     exp = install.orig('linear_fit', 'perpendicular_distance_points')(P, P[0], P[-1])
-    if not exact_equal(result, exp):
+    if not exact_equal(result, exp) and not _line_tolerant(ctx, result, P, P[0], P[-1], 'perp_full'):
         return ctx.violation(mon, 'dist:perp_full',
                              'perpendicular_distance(P) != perpendicular_distance_points(P, P[0], P[-1])',
                              points=P, got=np.asarray(result, dtype=float), expected=np.asarray(exp, dtype=float))
